@@ -46,6 +46,9 @@ def specPipeSeg (st : PipeSpecState) (toks : List String) (seg : List String) (i
       (st, (if impl.head? == some "panic" then [s!"{id} panic-{impl.getD 1 "?"}"] else []) ++
            (if impl.head? == some "stalled" then [s!"{id} stalled"] else []) ++
            (if impl.any (fun t => t.startsWith "alloc=big") then [s!"{id} allocation-out-of-proportion-{impl.getLastD "?"}"] else []))
+    else if kind == "eq" then
+      -- the implementation's answer is a verdict of its own (a stage that checks what arrives while it arrives)
+      (st, if impl == fields then [] else [s!"{id} expected-output-differs-{String.intercalate "-" (impl.take 3)}"])
     else
     match parseOuts impl with
     | none => (st, [s!"{id} unreadable-output-{impl.headD "empty"}"])
